@@ -293,7 +293,7 @@ fn build(case: &Case) -> Result<Option<Built>, Failure> {
                 match case.commit_kind % 4 {
                     0 => Op::SelfUpdate { m: sel(0), ts: 1, apply: Apply::Echo },
                     1 => Op::Data { m: sel(0), ts: 1, apply: Apply::Echo, change: DataChange::RotateId(1) },
-                    2 => Op::Add { m: sel(0), ts: 1, apply: Apply::Echo },
+                    2 => Op::Add { m: sel(0), ts: 1, apply: Apply::Echo, extra: 0 },
                     _ => Op::Data { m: sel(0), ts: 1, apply: Apply::Echo, change: DataChange::Relays(2) },
                 }
             };
@@ -330,7 +330,7 @@ fn build(case: &Case) -> Result<Option<Built>, Failure> {
             }
         }
         S::ProcessWelcome | S::AcceptWelcome => {
-            w.apply_op(&Op::Add { m: sel(0), ts: 1, apply: Apply::Echo }, &mut obs)?;
+            w.apply_op(&Op::Add { m: sel(0), ts: 1, apply: Apply::Echo, extra: 0 }, &mut obs)?;
             let Some(wl) = w.welcomes.last().cloned() else { return Ok(None) };
             if w.clients[wl.to].kind != BackendKind::Sql {
                 return Ok(None);
